@@ -35,7 +35,24 @@ def indicator(n, r, cx, cy, origin):
 
 
 def replay_circle(n, r, cx, cy, origin):
+    """the witness call on the real code: first in a fresh process state, then (the symbolic run re-executes circle
+    once per path, i.e. it explores repeated calls) after earlier calls of the same size"""
     pupil, _ = _mods()
+    bad, detail = _circle_once(pupil, n, r, cx, cy, origin)
+    if bad:
+        return bad, detail
+    for hist in ([(r, (cx, cy), origin)], [(1.0, (0.3, 0.7), "corner"), (1.0, (0.3, 0.7), "middle")],
+                 [(r, (cx, cy), "corner"), (r, (cx, cy), "middle")]):
+        for (hr, hc, ho) in hist:
+            pupil.circle(hr, n, hc, ho)
+        bad, detail = _circle_once(pupil, n, r, cx, cy, origin)
+        if bad:
+            detail["history"] = "after earlier calls circle(radius, %d, centre, origin) with %s" % (n, hist)
+            return bad, detail
+    return bad, detail
+
+
+def _circle_once(pupil, n, r, cx, cy, origin):
     C = pupil.circle(r, n, (cx, cy), origin)
     o = n / 2.0 if origin == "middle" else 0.0
     want = numpy.zeros((n, n))
@@ -192,7 +209,8 @@ def case_active(ctx, shape, subaps):
                 acc = acc + mask[i, j]
                 cnt += 1
         means.append(acc / cnt if cnt else None)
-    multiple = shape[0] % subaps == 0 and shape[1] % subaps == 0
+    # computeFillFactor takes ONE spacing: the clause is only expressible for square masks (findActiveSubaps: "assumes square")
+    multiple = shape[0] % subaps == 0 and shape[1] % subaps == 0 and shape[0] == shape[1]
     for pi, p in enumerate(paths):
         hyp = pre + p.pc
         if p.exc is not None:
